@@ -8,7 +8,7 @@ for d in seeded/${1:-*}/; do
   [ -f $p ] || continue
   prop=$(echo $n | cut -d- -f1)
   chk=$prop
-  case $n in C04-r2-m2) chk=C17;; C09-r2-m1) chk=C09;; esac
+  case $n in C04-r2-m2) chk=C17;; C09-r2-m1) chk=C09;; C01-r2-m2) chk=C05;; esac
   if git -C /repo apply --check /verif/$p 2>/dev/null; then git -C /repo apply /verif/$p
   elif git -C /repo apply --3way /verif/$p >/dev/null 2>&1; then :
   else echo "$n: patch does not apply to the current tree"; git -C /repo checkout -q -- . ; git -C /repo reset -q --hard HEAD; continue; fi
